@@ -45,6 +45,7 @@ type G struct {
 	objs        []objInfo
 	intVars     []string
 	topInts     []string // top-level int variables (targets of compound assignment)
+	curKw       []string // keyword parameters of the function literal being generated
 	selfMethods []fnInfo // inside a method body: int-returning methods of the same object defined before it
 	nVar        int
 	noFault     int
@@ -174,7 +175,10 @@ func (g *G) funcLit(np int, kw []string, method, retInt bool, depth int, paramNa
 	if depth < 1 {
 		depth = 1
 	}
+	savedKw := g.curKw
+	g.curKw = f.KwNames
 	f.L = g.bodyStmts(retInt, depth-1)
+	g.curKw = savedKw
 	return f
 }
 
@@ -211,10 +215,15 @@ func (g *G) bodyStmts(retInt bool, depth int) []*N {
 	}
 	// final statement
 	if retInt {
+		last := g.intExpr(depth, "stmt/last")
+		for _, k := range g.curKw {
+			// the result depends on every keyword parameter, so a wrongly bound one shows
+			last = &N{K: KInfix, Str: "+", A: last, B: &N{K: KInfix, Str: "*", A: &N{K: KVar, Str: k}, B: &N{K: KInt, Int: 1000}}}
+		}
 		if g.p.JumpW > 0 && g.t.Chance(1, 4) {
-			out = append(out, &N{K: KReturn, A: g.intExpr(depth, "return/value")})
+			out = append(out, &N{K: KReturn, A: last})
 		} else {
-			out = append(out, &N{K: KExprS, A: g.intExpr(depth, "stmt/last")})
+			out = append(out, &N{K: KExprS, A: last})
 		}
 		return out
 	}
@@ -547,10 +556,12 @@ func (g *G) callArgs(c *N, np int, kw []string, depth int, slotsAllowed bool) {
 			continue
 		}
 		if g.t.Chance(1, 4) && kwWithSlots == 0 {
-			// pass through `**{k: e}`
-			inner := &N{K: KObj, L: []*N{g.intExpr(depth, "call/starstar")}, Names: []string{k}, Star: []int{0}}
-			c.L = append(c.L, inner)
-			c.Star = append(c.Star, 2)
+			// pass through `**{k: e}`; sometimes twice with the same key (the first occurrence wins)
+			for rep := 1 + g.t.Pick(3, 1); rep > 0; rep-- {
+				inner := &N{K: KObj, L: []*N{g.intExpr(depth, "call/starstar")}, Names: []string{k}, Star: []int{0}}
+				c.L = append(c.L, inner)
+				c.Star = append(c.Star, 2)
+			}
 			kwWithSlots = 99 // no slot-bearing explicit keyword argument next to a `**`
 			continue
 		}
